@@ -11,19 +11,54 @@ func checkPlanFor(prop, tier string) *checkPlan {
 		return thorough
 	}
 	comp := map[string][]string{"real": realComponents, "stub": stubComponents}
+	histAssume := []string{
+		"the fresh-process reference is the implementation itself run with an empty history; a change that alters a lint's verdict identically in every history is invisible here (that is C02/C03/C06..., not claimed)",
+		"Timestamp is excluded from comparison",
+	}
 	switch prop {
 	case "C05":
-		return &checkPlan{Prop: prop, Level: "exploration", BudgetS: n(150, 1800), Measure: "nontrivial",
+		return &checkPlan{Prop: prop, Level: "exploration", BudgetS: n(240, 2400), Measure: "nontrivial",
 			Batches: []batchSpec{
-				{Label: "hist", Engine: "hist", Prop: "C05", Runs: n(400, 20000), FaultFree: true},
+				{Label: "hist", Engine: "hist", Prop: "C05", Runs: n(320, 20000), FaultFree: true},
+				{Label: "repeat-sweep", Engine: "hist", Prop: "C05", Mode: "sweep:%d/64", Runs: n(64, 64), FaultFree: true},
+				{Label: "env", Engine: "hist", Prop: "C05", Runs: n(96, 1500), Special: "env"},
+				{Label: "syscall-audit", Engine: "hist", Prop: "C05", Runs: n(48, 400), Special: "audit", Audit: true},
 			},
 			Rule: "one run = one seeded sequential history (10-60 ops: lint on 4 paths, repeat-in-place, Filter, SetConfiguration, registry reads) over 1-8 corpus/mutated objects in one fresh process; every lint result of every op is compared with the fresh-process reference ref(object, lint, configuration). A checked lint op is non-trivial when an earlier checked op in the same process used a different object, registry or configuration; distinct = distinct (seed, op, object, selection, configuration) tuples.",
-			Assumption: []string{
-				"the fresh-process reference is the implementation itself run with an empty history; a change that alters a lint's verdict identically in every history is invisible here (that is C02/C03/C06..., not claimed)",
-				"Timestamp is excluded from comparison",
-				"I/O freedom is decided only for the executions explored (syscall audit of seeded runs), not for all programs",
+			Assumption: append(histAssume,
+				"I/O freedom is decided only for the executions explored (syscall audit of seeded runs under strace), not for all programs",
+				"Go map iteration order cannot be seeded: a map-order defect is found with probability <1 per repetition; the repeat-sweep batch repeats every corpus object R times to push that probability up"),
+			Components: comp}
+	case "C07":
+		return &checkPlan{Prop: prop, Level: "exploration", BudgetS: n(240, 2400), Measure: "selection_pairs",
+			Batches: []batchSpec{
+				{Label: "hist", Engine: "hist", Prop: "C07", Runs: n(320, 16000), FaultFree: true},
 			},
+			Rule:       "one run = one seeded history in which the same object bytes are linted under several registries derived by nested Filter calls (singletons, all-but-one, prefixes, by source, by regexp, random subsets), on the same parsed object and on fresh twins, in both orders; every selected lint's (status, details) must equal the fresh-process single-lint reference and the result of every other selection in the run; keys must equal the model's selection; flags of a narrower run must be raised by the wider run. distinct_nontrivial = distinct (object, configuration, selection A, selection B) pairs compared with A != B.",
+			Assumption: append(histAssume, "weak fit (DESIGN 4.4): the history varied is the sequence of other lint executions sharing one parsed object"),
+			Components: comp}
+	case "C08":
+		return &checkPlan{Prop: prop, Level: "exploration", BudgetS: n(240, 2400), Measure: "filter_shapes_seeded",
+			Batches: []batchSpec{
+				{Label: "hist", Engine: "hist", Prop: "C08", Runs: n(400, 20000), FaultFree: true},
+			},
+			Rule:       "one run = one seeded history of Filter / SetConfiguration / Lint / read ops over a growing graph of registries (nested filtering, aliases for empty options); after every op every registry created so far is compared with the reference model (documented precedence, trimming, unknown-name and pattern+names errors, kind and metadata kept, configuration inherited at filter time, source unchanged). distinct_nontrivial = distinct (seed, op, option shape, outcome) of Filter ops checked.",
+			Assumption: []string{"the model is written from the doc comments of FilterOptions/Filter and the property text", "which lints exist is read from the live registry (C12 is not claimed)", "partial fit (DESIGN 4.5): the pure selection rule is decided as a by-product of refinement over histories"},
+			Components: comp}
+	case "C11":
+		return &checkPlan{Prop: prop, Level: "fault_enumeration", BudgetS: n(240, 2400), Measure: "nontrivial",
+			Batches: []batchSpec{
+				{Label: "hist+transport-faults", Engine: "hist", Prop: "C11", Runs: n(400, 20000)},
+				{Label: "hist-fault-free", Engine: "hist", Prop: "C11", Mode: "nofault", Runs: n(120, 6000), FaultFree: true},
+				{Label: "torn-file-sweep", Engine: "hist", Prop: "C11", Mode: "tornsweep:%d/32", Runs: n(32, 256)},
+			},
+			Rule:       "one run = one seeded history of LoadConfig (string / fault-injecting reader / real file: chunking, (n>0,EOF), (n>0,err), error after k bytes, torn at k, missing, directory) / SetConfiguration / Filter / Lint ops over 2-5 configurations of classes empty, neutral, example, option-setting, ill-typed, odd; every lint result is compared with the fresh-process reference under the configuration the model says the registry holds, unnamed lints with the no-configuration reference, the ill-typed lint must be fatal with a configuration message and no recovered-panic marker, and no panic may reach the caller on the certificate, CRL and OCSP paths. distinct_nontrivial as for C05.",
+			Assumption: append(histAssume, "only the clearly inapplicable shapes (scalar, array, array of tables, wrong field type) are judged 'must be fatal'; odd shapes are judged for no-panic and locality only"),
 			Components: comp}
 	}
+	return checkPlanMore(prop, tier, n, comp, histAssume)
+}
+
+func checkPlanMore(prop, tier string, n func(int, int) int, comp map[string][]string, histAssume []string) *checkPlan {
 	return nil
 }
